@@ -50,7 +50,23 @@ def run_check(prop, src, tier="quick", runs=None, seed=None, extra_env=None):
     out = p.stdout.decode("utf-8", "replace")
     viol = [ln for ln in out.splitlines() if ln.startswith("VIOLATION ")]
     msg = [ln for ln in out.splitlines() if ln.startswith("violation: ")]
-    return {"exit": p.returncode, "violations": viol, "messages": msg, "wall": round(time.time() - t0, 1), "out": out}
+    # a detection only counts if the same replay is silent on the unpatched tree (otherwise the
+    # check raised a false alarm of its own and the patch had nothing to do with it)
+    spurious = 0
+    genuine = 0
+    if src != boot.anytree_src() or extra_env is not None:
+        clean_env = dict(os.environ)
+        clean_env.pop("ANYTREE_SRC", None)
+        for ln in viol:
+            path = ln.split("replay=", 1)[1].strip()
+            q = subprocess.run([sys.executable, "-B", CHECK, "replay", path], stdout=subprocess.PIPE, stderr=subprocess.STDOUT,
+                               env=clean_env, cwd=boot.VERIF_DIR, timeout=600)
+            if q.returncode == 0:
+                genuine += 1
+            else:
+                spurious += 1
+    return {"exit": p.returncode, "violations": viol, "messages": msg, "wall": round(time.time() - t0, 1), "out": out,
+            "genuine": genuine, "spurious": spurious}
 
 
 def patch_cmd(args, seed):
@@ -63,7 +79,10 @@ def patch_cmd(args, seed):
         for prop in props:
             r = run_check(prop, src, tier=args.tier, runs=args.runs)
             first = (r["messages"] or [""])[0][:300]
-            print("%s exit=%d %.1fs %s" % (prop, r["exit"], r["wall"], first), flush=True)
+            code = r["exit"]
+            if code == 1 and not r["genuine"]:
+                code = 4  # violations reported, but every one of them also 'fails' on the unpatched tree
+            print("%s exit=%d %.1fs genuine=%d spurious=%d %s" % (prop, code, r["wall"], r["genuine"], r["spurious"], first), flush=True)
             if r["exit"] == 2:
                 print(r["out"][-3000:])
             rc = max(rc, r["exit"])
@@ -95,7 +114,7 @@ def mutants_cmd(args, seed):
                 if prop not in PROPS:
                     continue
                 r = run_check(prop, src, tier=args.tier, runs=args.runs)
-                if r["exit"] == 1 and r["violations"]:
+                if r["exit"] == 1 and r["violations"] and r["genuine"]:
                     caught_by.append(prop)
                 elif r["exit"] == 2:
                     errors.append((m["id"], prop + ": harness error\n" + r["out"][-1500:]))
